@@ -56,6 +56,19 @@ example : decodeImpl (ofS " ") (some 0)
     ≠ prettyNode (ofS " ") 0 false
       (.elem 3 (ofS "<pre>") (ofS "</pre>") true [.elem 3 (ofS "<b>") (ofS "</b>") false [], .str (ofS " z ")]) := by decide
 
+/-- State restoration (the pillar of the refinement): after the events of any subtree the loop's `indent_level` and
+    `string_literal_tag` are what they were before it — whatever is nested inside (whitespace-preserving elements within
+    each other, tags inside them) — so what follows a subtree is laid out independently of it. -/
+theorem state_restored (u : PStr) (l : Int) (t : Node) (rest : List Ev) (h : distinct t = true) :
+    finalState u ⟨some l, none⟩ (events t ++ rest) = finalState u ⟨some l, none⟩ rest ∧
+    finalState u ⟨some l, none⟩ (events t) = ⟨some l, none⟩ := by
+  refine ⟨final_out u t l rest h, ?_⟩
+  have := final_out u t l [] h
+  simpa [finalState] using this
+
+example : (finalState (ofS " ") ⟨some 0, none⟩ ((events demo).take 9)).lit = some 3 ∧
+    (finalState (ofS " ") ⟨some 0, none⟩ ((events demo).take 9)).lvl = some 2 := by decide
+
 /-- The same for `decode_contents(indent_level=l)` and for a hidden receiver (the `BeautifulSoup` object): the children's
     stream gives the children's rendering, all at level `l`. -/
 theorem pretty_refines_contents (u : PStr) (l : Int) (ks : List Node) (h : distinctL ks = true) :
